@@ -492,6 +492,9 @@ PROPS = {
         "level": "proof",
         "level_prefix": "Partial proof -- contracts discharged without bound on the mechanisms named below, not the whole statement (bounded stand-ins and what is left out are listed): ",
         "units": ["zfsource"],
+        "vx_search": {"bin": "c07_search_small_files", "crate": "replay_net",
+                      "what": "all 30941 zone files of at most 4 octets over the tokenizer's 13 special octets, read through the public API "
+                              "under a 10 s progress watchdog"},
         "kani": [
             {"group": "g0", "name": "c06_from_slice_index_window_bounded", "kind": "bounded", "tier": "quick",
              "bound": "buffers of at most 6 octets, every position 0..=8",
